@@ -12,7 +12,7 @@ LEVEL = "exploration"
 SHARDS = {"quick": 2, "thorough": 16}
 F_REGIONS = ["f:zero", "f:1e-6..1e-4", "f:1e-4..1e-2", "f:1e-2..0.2"]
 REGIONS = {r: 50 for r in F_REGIONS}
-REGIONS.update({"bodies": 9, "wgs84": 1})
+REGIONS_FIXED = {"bodies": 9, "wgs84": 1}
 ROUTES = ["ReferenceEllipsoid/constants", "ReferenceEllipsoid/pizzetti", "ReferenceEllipsoid/normal_gravity", "ReferenceEllipsoid/sphere-limit", "WGS"]
 PROBES = [("ahrs.utils.geodesy", "ReferenceEllipsoid.normal_gravity"), ("ahrs.utils.geodesy", "ReferenceEllipsoid.equatorial_normal_gravity"),
           ("ahrs.utils.geodesy", "ReferenceEllipsoid.polar_normal_gravity"), ("ahrs.utils.geodesy", "ReferenceEllipsoid.first_eccentricity_squared"),
@@ -59,7 +59,8 @@ def judge(ctx, E, a, f, GM, w, lats, hs):
     ctx.le("b = a (1 - f)", abs(v["b"] - b) / a, 1e-15, route=r)
     ctx.le("e^2 = (a^2 - b^2)/a^2", abs(v["e2"] - (a * a - b * b) / (a * a)), 4e-15, route=r)
     ctx.le("e'^2 = (a^2 - b^2)/b^2", abs(v["es2"] - (a * a - b * b) / (b * b)), 4e-15 * (a / b) ** 2, route=r)
-    ctx.le("E = sqrt(a^2 - b^2)", abs(v["E"] - np.sqrt(a * a - b * b)) / a, 1e-15, route=r)
+    # a^2 - b^2 cancels for small f: the linear eccentricity is conditioned like eps / sqrt(f)
+    ctx.le("E = sqrt(a^2 - b^2)", abs(v["E"] - np.sqrt(a * a - b * b)) / a, 2e-15 + (4e-16 / np.sqrt(f) if f > 0 else 0.0), route=r)
     ctx.le("m = w^2 a^2 b / GM", abs(v["m"] - m) / max(m, 1e-300), 1e-14, route=r)
     ge, gp = v["ge"], v["gp"]
     r = "ReferenceEllipsoid/pizzetti"
